@@ -195,7 +195,7 @@ func checkCancelPoints(c *h.Ctx, p *path.Path, nodes int, ptxt, dtxt string, use
 		}
 	}
 	if base.Polls <= 64 || len(ptxt)%4 == 0 {
-		checkBetweenPolls(c, p, func() any { return h.Decode(dtxt, useNum) }, opts, combo, min(base.Polls, 400), cs)
+		checkBetweenPolls(c, p, func() any { return h.Decode(dtxt, useNum) }, opts, combo, min(base.Polls, 400), cs, base)
 	}
 }
 
@@ -204,7 +204,7 @@ func checkCancelPoints(c *h.Ctx, p *path.Path, nodes int, ptxt, dtxt string, use
 // - the next poll or any other look at the context - must report it as an
 // error wrapping ErrExecution and the context's error; a normal outcome is
 // acceptable only if no poll saw the context done.
-func checkBetweenPolls(c *h.Ctx, p *path.Path, doc func() any, opts h.Opts, combo c20Combo, polls int, cs h.Case) {
+func checkBetweenPolls(c *h.Ctx, p *path.Path, doc func() any, opts h.Opts, combo c20Combo, polls int, cs h.Case, base *h.Out) {
 	for n := 1; n <= polls; n++ {
 		m := &h.CallMon{CancelAt: -1, CancelAfterPoll: n, Cause: combo.cause}
 		o := h.CallMonitored(combo.entry, p, doc(), opts, m)
@@ -218,6 +218,12 @@ func checkBetweenPolls(c *h.Ctx, p *path.Path, doc func() any, opts h.Opts, comb
 		case o.Err == nil && m.PollsAfter > 0:
 			feat["kind"] = "normal-outcome"
 			c.Violate("between-polls", feat, fmt.Sprintf("the context became done after poll %d/%d, %d later polls saw it, but %s returned %s with a nil error", n, polls, m.PollsAfter, combo.entry, o.Summary()), cs)
+		case o.Err == nil && base != nil && !exposesOrderText(cs.Path) && o.Summary() != base.Summary():
+			// nothing polled the context again, yet the outcome is not that of
+			// the undisturbed run: something else looked at the context
+			// (ctx.Err()) and made a result of what it saw
+			feat["kind"] = "other-outcome"
+			c.Violate("between-polls", feat, fmt.Sprintf("the context became done after poll %d/%d; no later poll saw it, and %s returned %s with a nil error - the undisturbed run returns %s", n, polls, combo.entry, o.Summary(), base.Summary()), cs)
 		case o.Err == nil:
 			c.Held("between-polls") // completed without looking at the context again
 		case o.Class == h.Null && m.PollsAfter == 0 && !errors.Is(o.Err, combo.cause):
@@ -234,6 +240,12 @@ func checkBetweenPolls(c *h.Ctx, p *path.Path, doc func() any, opts h.Opts, comb
 			c.Held("between-polls")
 		}
 	}
+}
+
+// exposesOrderText: the path expands object members (their order is open, so
+// two runs may differ in the order of their items).
+func exposesOrderText(ptxt string) bool {
+	return strings.Contains(ptxt, ".*") || strings.Contains(ptxt, "keyvalue")
 }
 
 func modeOf(p *path.Path) string {
